@@ -79,7 +79,7 @@ def kind_of(crate, body, role, depth=0):
             return ("SUBSET",)
         if name in ("proven_contains",):
             return ("STEP",)
-        if name in ("next", "into_iter", "iter", "values", "collect", "branch", "get", "index", "deref", "cloned", "map"):
+        if name in ("next", "into_iter", "iter", "values", "into_values", "values_mut", "iter_mut", "collect", "branch", "get", "index", "deref", "cloned", "map", "clone", "copied"):
             site = None
             # find the body owning this call site: roles may cross into the parent for upvars
             for bb in [body] + ([body.parent_body] if body.parent_body else []):
@@ -90,7 +90,7 @@ def kind_of(crate, body, role, depth=0):
             inner = kind_of(crate, body, r[3][0], depth) if r[3] else ("?",)
             if site is not None:
                 t = optype(site[0], site[1].args[0]) if site[1].args else ""
-                if name in ("get", "index", "values", "into_iter", "iter") and "HashMap<slot::Slot" in t:
+                if name in ("get", "index", "values", "into_values", "values_mut", "into_iter", "iter", "iter_mut") and "HashMap<slot::Slot" in t:
                     return ("OT",)
                 if name in ("into_iter", "iter") and "HashSet<" in t:
                     return ("GEN",)
@@ -302,12 +302,23 @@ def g2(ctx):
 def g3(ctx):
     crate = ctx.lib()
     cnt = fn(crate, "count", GRP)
-    d = crate.deps(cnt)
-    at = d.atoms_of_local(cnt, 0)
-    ok = bool(mir.atoms_calls(at, "len")) and any(a[0] == "call" and a[5] == cnt.id for a in at) and ("group::Next", "ot") in [(a[1], a[2]) for a in at if a[0] == "field"]
-    mul = any(s["k"] == "assign" and s["rv"]["k"] == "bin" and s["rv"]["op"].startswith("Mul") for _, _, s in cnt.statements())
+    # the product may be written in a closure handed to Option::map_or: look at the function with its closures
+    ok = mul = False
+    for sub in cnt.all_bodies():
+        lens = [c for c in sub.calls if c.callee and c.callee.name == "len" and c.args and role_mentions_field(sub.role_of_operand(c.args[0]), "ot")]
+        recs = [c for c in sub.calls if c.callee and c.callee.target == cnt.id and c.args and role_mentions_field(sub.role_of_operand(c.args[0]), "g")]
+        for _, _, s_ in sub.statements():
+            if s_["k"] == "assign" and s_["rv"]["k"] == "bin" and s_["rv"]["op"].startswith("Mul"):
+                ra, rb = sub.role_of_operand(s_["rv"]["a"]), sub.role_of_operand(s_["rv"]["b"])
+                if (role_mentions_call(ra, "len") and role_mentions_call(rb, "count")) or (role_mentions_call(rb, "len") and role_mentions_call(ra, "count")):
+                    mul = True
+        ok = ok or (bool(lens) and bool(recs))
     ctx.check(ok and mul, "count-is-product", "count() = ot.len() * next.g.count()", "count() is not the product of the orbit size and the stabiliser's count", where_of(cnt))
     base = any(d_["kind"] == "assign" and cnt.role_of_rvalue(d_["rv"]) == ("const", "1_usize") for d_ in cnt.defs().get(0, []))
+    # ... or the default of `next.as_ref().map_or(1, ..)`
+    for c in cnt.calls:
+        if c.callee and c.callee.name in ("map_or", "unwrap_or") and len(c.args) >= 2 and cnt.role_of_operand(c.args[1]) == ("const", "1_usize") and role_mentions_field(cnt.role_of_operand(c.args[0]), "next"):
+            base = True
     ctx.check(base, "count-base", "the trivial group has count 1", "count() of the trivial group is not 1", where_of(cnt))
     orb = fn(crate, "orbit", GRP)
     bo = [c for c in orb.calls if c.callee and c.callee.name == "build_ot"]
@@ -401,7 +412,7 @@ def g6(ctx):
     for l in loops:
         k = kind_of(crate, b, l[1])
         kinds[kstr(k)] = l
-    ok = "OTMAP" in kinds and "GENSET" in kinds
+    ok = ("OTMAP" in kinds or "OT" in kinds) and ("GENSET" in kinds or "GEN" in kinds)
     ctx.check(ok and all(C.loop_exhaustive(b, l) for l in loops), "schreier-loops", "schreiers_lemma ranges over all of ot and all generators",
               "schreiers_lemma no longer ranges over every orbit-table entry and every generator (%s)" % sorted(kinds), where_of(b))
     ins = [c for c in b.calls if c.callee and c.callee.name == "insert" and "HashSet" in (c.callee.impl_self or "") and not b.blocks[c.bb]["cleanup"]]
